@@ -197,12 +197,13 @@ theorem stage_sem (on : List String) (hon : on ≠ []) (D0 src other D1 : Table)
       · intro c; rw [e5 c]; simp [hdd]
 
 /-- **`_join_dictable_with_defaults` of two tables is a `JStep`** -/
-theorem joinDef_sem (on : List String) (hon : on ≠ []) (a b d : Table)
-    (da db dd : List (String × Cell)) (ha : a.WF) (hb : b.WF) (hsh : Shares on a b)
+theorem joinDef_sem (on : List String) (hon : on ≠ []) (a b : Table)
+    (da db : List (String × Cell)) (x : TblDef) (ha : a.WF) (hb : b.WF) (hsh : Shares on a b)
     (hda : ∀ kv ∈ da, kv.1 ∈ a.cols) (hdb : ∀ kv ∈ db, kv.1 ∈ b.cols)
-    (h : joinDef (some a, da) (some b, db) = some (.ok (some d, dd))) :
-    JStep on a.cols b.cols a.R b.R da db d.R ∧ d.WF ∧
-      (∀ c, c ∈ d.cols ↔ c ∈ a.cols ∨ c ∈ b.cols) ∧ dd = updDefaults da db := by
+    (h : joinDef (some a, da) (some b, db) = some (.ok x)) :
+    ∃ d : Table, x = (some d, updDefaults da db) ∧
+      JStep on a.cols b.cols a.R b.R da db d.R ∧ d.WF ∧
+      (∀ c, c ∈ d.cols ↔ c ∈ a.cols ∨ c ∈ b.cols) := by
   unfold joinDef at h
   dsimp only at h
   cases hm : a.mul b with
@@ -229,9 +230,7 @@ theorem joinDef_sem (on : List String) (hon : on ≠ []) (a b d : Table)
         | error e => rw [hr2] at h; cases h
         | ok d2 =>
           rw [hr2] at h
-          simp only [Option.some.injEq, Except.ok.injEq, Prod.mk.injEq] at h
-          obtain ⟨hd, hdd⟩ := h
-          subst hd
+          simp only [Option.some.injEq, Except.ok.injEq] at h
           obtain ⟨ids2, h2n, h2m, hw2, hn2, hr2a, hr2b, hc2⟩ :=
             stage_sem on hon d1 a b d2 db hw1 ha.1 hsh hr2
           have hlen : d0.nrows = kp.length := by
@@ -239,7 +238,7 @@ theorem joinDef_sem (on : List String) (hon : on ≠ []) (a b d : Table)
               exact ⟨List.eq_nil_iff_forall_not_mem.2 fun j hj => ((x2 j).1 hj).1 rfl,
                 List.eq_nil_iff_forall_not_mem.2 fun j hj => ((x4 j).1 hj).1 rfl⟩
             simpa [this.1, this.2] using hn
-          refine ⟨⟨kp, ids1, ids2, hkn, hkm, h1n, h1m, h2n, h2m, ?_, ?_, ?_, ?_⟩, hw2, ?_, hdd.symm⟩
+          refine ⟨d2, h.symm, ⟨kp, ids1, ids2, hkn, hkm, h1n, h1m, h2n, h2m, ?_, ?_, ?_, ?_⟩, hw2, ?_⟩
           · show d2.nrows = _
             rw [hn2, hn1, hlen]
           · intro p hp
